@@ -189,3 +189,21 @@ package knxnet
 //@   ensures [datagram] uint(len(buffer)) == srv.Size() + 6 && fresh(buffer)
 //@   ensures [length] uint(buffer[4])<<8 | uint(buffer[5]) == uint(len(buffer))
 //@   assigns nothing
+
+//@ func HostInfoFromAddress(address net.Addr) (info HostInfo, err error)
+//@   trusted
+//@   -- assumed: parsing of the textual socket address (net.SplitHostPort, net.ParseIP, strconv.ParseUint)
+//@   ensures err != nil || info.Protocol == UDP4 || info.Protocol == TCP4
+//@   assigns nothing
+
+//@ func NewDescriptionReq(addr net.Addr) (req *DescriptionReq, err error)
+//@   trusted
+//@   ensures (err == nil) == (req != nil)
+//@   ensures req != nil ==> fresh(req)
+//@   assigns nothing
+
+//@ func NewSearchReq(addr net.Addr) (req *SearchReq, err error)
+//@   trusted
+//@   ensures (err == nil) == (req != nil)
+//@   ensures req != nil ==> fresh(req)
+//@   assigns nothing
